@@ -646,6 +646,30 @@ impl<'a> Visitor for Forward<'a> {
                 }
             }
         }
+        // the same when the box does not start at stream position 0: preceded by a sibling box
+        // (and followed by the first tail)
+        for head in [&[0u8, 0, 0, 12, b'f', b'r', b'e', b'e', 9, 9, 9, 9][..], &[0u8; 37][..]] {
+            let mut bytes = head.to_vec();
+            bytes.extend_from_slice(&buf);
+            if let Some(t) = self.tails.first() {
+                bytes.extend_from_slice(t);
+            }
+            let mut cur = Cursor::new(bytes);
+            cur.set_position(head.len() as u64);
+            let r = guard(|| -> Result<T, mp4::Error> {
+                let h = BoxHeader::read(&mut cur)?;
+                T::read_box(&mut cur, h.size)
+            })
+            .map_err(|p| p.failure(&format!("read_box({})", k)))?;
+            match r {
+                Err(e) => fail!(format!("c04:decode-error-at-offset:{}", k), "{}: decoding its own encoding at stream offset {} failed: {} [{:?}]", k, head.len(), e, v),
+                Ok(v2) => {
+                    let pos = cur.position();
+                    ensure!(pos == (head.len() + buf.len()) as u64, format!("c04:position-at-offset:{}", k), "{}: box at offset {}: decoder left the stream at {} instead of {}", k, head.len(), pos, head.len() + buf.len());
+                    ensure!(&v2 == v, format!("c04:roundtrip-at-offset:{}", k), "{}: box decoded at stream offset {} differs from the value encoded\n  v  = {:?}\n  v' = {:?}", k, head.len(), v, v2);
+                }
+            }
+        }
         Ok(())
     }
 }
